@@ -263,62 +263,6 @@ def fetch_width_rule(ctx, R3, X=None):
     for n in walk_no_nested(dis):
         if isinstance(n, ast.Call) and u(n.func) == 'x86mndb.get_afs' and len(n.args) == 3:
             WANT.append(('ModRM operand and displacement', n, u(n.args[2]), 'self.admode'))
-        if isinstance(n, ast.Call) and u(n.func) == 'x86mndb.get_im_fmt' and len(n.args) == 3:
-            WANT.append(('imm/ims immediate', n, u(n.args[1]), 'self.opmode'))
-    # the moffs branch
-    mim_if = None
-    for n in walk_no_nested(dis):
-        if isinstance(n, ast.If) and u(n.test) == 'dib == mim':
-            mim_if = n
-    if mim_if is None:
-        raise AnalysisError('_dis: branch `dib == mim` not found')
-    import struct as _struct
-    from ..consteval import Evaluator as _Ev, Obj as _Obj, Native as _Nat, NotConst as _NC
-    A_ = X.afs
-    for opm in ('u32', 'u16'):
-        for adm in ('u32', 'u16'):
-            for byte in (False, True):
-                me = _Obj('self')
-                me.opmode, me.admode = getattr(A_, opm), getattr(A_, adm)
-                st_ = _Obj('struct')
-                st_.calcsize = _Nat(_struct.calcsize)
-                st_.unpack = _Nat(lambda fmt, data: [('VALUE', fmt, data)])
-                bn = _Obj('bin')
-                bn.readbs = _Nat(lambda l=1: ('BYTES', l))
-                mm_ = _Obj('m')
-                mm_.modifs = {E['w8']: byte}
-                scope = {'self': me, 'struct': st_, 'bin': bn, 'm': mm_, 'x86_afs': A_, 'dib_out': [], 'uint32': _Nat(lambda v: v), 'w8': E['w8'], 'u08': A_.u08}
-                ev_ = _Ev({})
-                ev_.env = scope
-                try:
-                    ev_.exec_stmts(mim_if.body, scope)
-                except _NC as e:
-                    raise AnalysisError('_dis: the moffs branch is outside the evaluable subset: %s' % e)
-                inst = 'moffs operand-size %s address-size %s %s' % (opm, adm, 'byte' if byte else 'full')
-                out = scope['dib_out']
-                want_len = 4 if adm == 'u32' else 2
-                want_size = A_.u08 if byte else getattr(A_, opm)
-                problems = []
-                if len(out) != 1 or not isinstance(out[0], dict):
-                    problems.append('does not append exactly one operand')
-                else:
-                    v = out[0].get(A_.imm)
-                    if not (isinstance(v, tuple) and v[0] == 'VALUE' and isinstance(v[2], tuple) and v[2][0] == 'BYTES'):
-                        problems.append('offset is not unpacked from bytes read from the stream')
-                    else:
-                        if v[2][1] != want_len:
-                            problems.append('reads %s offset bytes, the address size %s has %d' % (v[2][1], adm, want_len))
-                        if _struct.calcsize(v[1]) != want_len:
-                            problems.append('unpacks with format %r (%d bytes)' % (v[1], _struct.calcsize(v[1])))
-                    if out[0].get(A_.size) != want_size:
-                        problems.append('operand size is %s, expected %s' % (out[0].get(A_.size), want_size))
-                    if out[0].get(A_.ad) is not True:
-                        problems.append('operand is not marked as memory')
-                if problems:
-                    R3.violation(inst, 'mode:moffs:%s:%s:%s' % (opm, adm, ';'.join(problems)[:60]), 'moffs operand (A0..A3) with operand size %s and address size %s: %s' % (opm, adm, '; '.join(problems)),
-                                 where(arch, mim_if), witness='66 a1 78 56 34 12 must be 6 bytes long')
-                else:
-                    R3.ok(inst, sample='%s: %d offset bytes, operand size %s' % (inst, want_len, want_size))
     # register operands
     for n in walk_no_nested(dis):
         if isinstance(n, ast.If) and u(n.test) == 'm.modifs[w8]' and n.orelse and len(n.body) == 1 and len(n.orelse) == 1:
@@ -332,51 +276,13 @@ def fetch_width_rule(ctx, R3, X=None):
                 WANT.append(('register operand size', n, u(ie.orelse), 'self.opmode'))
             elif u(ie.test) == 'not m.modifs[w8]' and u(ie.orelse) == 'x86_afs.u08':
                 WANT.append(('register operand size', n, u(ie.body), 'self.opmode'))
-    # fixed immediates narrowed under the 16-bit operand size: the statements between the branch test and the
-    # computation of the byte count are evaluated for every (token, operand size, address size) combination
-    fixed_if = None
-    for n in walk_no_nested(dis):
-        if isinstance(n, ast.If) and isinstance(n.test, ast.Compare) and u(n.test.left) == 'dib' and isinstance(n.test.ops[0], ast.In) \
-                and u(n.test.comparators[0]).replace(' ', '') == '[u08,s08,u16,s16,u32,s32]':
-            fixed_if = n
-    if fixed_if is None:
-        raise AnalysisError('_dis: branch for fixed-width immediates (dib in [u08, ..., s32]) not found')
-    pre = []
-    for st in fixed_if.body:
-        if isinstance(st, ast.Assign) and 'struct.calcsize' in u(st.value):
-            break
-        pre.append(st)
-    else:
-        raise AnalysisError('_dis: fixed-width immediate branch no longer computes its byte count with struct.calcsize')
-    from ..consteval import Evaluator, Obj, NotConst
-    toks = dict((k, getattr(afs_, k)) for k in ('u08', 's08', 'u16', 's16', 'u32', 's32')) if False else None
-    A = X.afs
-    names = {'u08': A.u08, 's08': A.s08, 'u16': A.u16, 's16': A.s16, 'u32': A.u32, 's32': A.s32}
-    EXPECT = {('u32', 'u16'): 'u16', ('s32', 'u16'): 's16'}
-    for tok in ('u08', 's08', 'u16', 's16', 'u32', 's32'):
-        for opm in ('u32', 'u16'):
-            for adm in ('u32', 'u16'):
-                me = Obj('self')
-                me.opmode, me.admode = names[opm], names[adm]
-                me.mnemo_mode = names['u32']         # the default size of the mode: 0x66 toggles opmode, never this
-                scope = dict(names)
-                scope.update({'self': me, 'dib': names[tok], 'x86_afs': A})
-                ev_ = Evaluator({})
-                ev_.env = scope
-                try:
-                    ev_.exec_stmts(pre, scope)
-                except NotConst as e:
-                    raise AnalysisError('_dis: narrowing of fixed-width immediates is outside the evaluable subset: %s' % e)
-                want = names[EXPECT.get((tok, opm), tok)]
-                inst = 'fixed immediate %s, operand size %s, address size %s' % (tok, opm, adm)
-                if scope['dib'] == want:
-                    R3.ok(inst, sample='%s under operand size %s is read as %s' % (tok, opm, want), nontrivial=(tok in ('u32', 's32')))
-                else:
-                    R3.violation(inst, 'mode:fixed-imm:%s:%s:%s' % (tok, opm, adm), 'a fixed-width immediate %s with operand size %s and address size %s is read as %s; IA-32 reads %s'
-                                 % (tok, opm, adm, scope['dib'], want), where(arch, fixed_if), witness='66 e8 12 34 90 90 must be 4 bytes long' if tok == 's32' else None)
+    # immediates and direct offsets: the operand loop of _dis is evaluated as a whole for every immediate kind x operand size x address size (bytes consumed, operand width) and for the
+    # moffs operand of A0..A3 (offset bytes by the address size, operand size by the operand size / w8) -- see sa/immdecode.py
+    from ..immdecode import imm_decode_rule
+    imm_decode_rule(ctx, R3, X, 'mode', part='modes')
     from collections import Counter
     kinds = Counter(w[0] for w in WANT)
-    for kind_, least in (('ModRM operand and displacement', 2), ('imm/ims immediate', 1), ('register operand size', 2)):
+    for kind_, least in (('ModRM operand and displacement', 2), ('register operand size', 2)):
         if kinds.get(kind_, 0) < least:
             raise AnalysisError('_dis: expected at least %d site(s) of kind "%s", found %d (the construct was rewritten: re-read and extend the rule)' % (least, kind_, kinds.get(kind_, 0)))
     for what, n, got, want in WANT:
@@ -1039,6 +945,13 @@ def run(ctx, report):
     R13 = report.rule('C01.D13', 'x86_mn.__str__ evaluated as a whole (Intel and AT&T) on every decoder form that carries an immediate, for immediates that differ in a low bit, in bits 3-7 '
                       'and in the top bit: different immediates give different texts, so no bit of the encoded immediate is dropped or folded into the mnemonic', floor=150)
     render_immediate_rule(ctx, R13)
+
+    # ---------------------------------------------------------------- D14 the immediate as the decoder reads it (shared with C17.D8)
+    R14 = report.rule('C01.D14', 'the operand loop of _dis evaluated on every immediate kind x (w8, se) of the live cells x operand size x boundary byte patterns: bytes consumed, width and '
+                      'value of the immediate operand are the architectural ones (imm8 of 83 /r, 6A, 6B and every relative displacement sign-extended to the operand size; the others '
+                      'zero-extended)', floor=18)
+    from ..immdecode import imm_decode_rule
+    imm_decode_rule(ctx, R14, X, 'C01')
 
 
 def render_immediate_rule(ctx, R):
